@@ -653,3 +653,75 @@ Proof.
     + inversion H; subst s r; clear H. destruct RH as (p' & ty & tg & -> & E & L1 & L2). cbn [go_call bindc Bool.eqb negb go_iter].
       exists p'. repeat split; try assumption; lia.
 Qed.
+
+(* ---------- SkipToNoCheck ---------- *)
+(* the model's field search over the propagating skip; it agrees with the model whenever it does not run out of fuel *)
+Fixpoint seek_p (fuel : nat) (tag : N) (require : bool) (bs : list N) : seek :=
+  match fuel with
+  | O => SeekFuel
+  | S f =>
+    match read_head2 bs with
+    | None => if require then SeekErr else NotFound []
+    | Some (ty, tg, r, two) =>
+        if ((ty =? tSE) || (tag <? tg))%N then (if require then SeekErr else NotFound (unread bs tg two))
+        else if (tg =? tag)%N then Found ty r
+        else match skip_field_p f 0 ty r with
+             | (SOk, r') => seek_p f tag require r'
+             | (SFuel, _) => SeekFuel
+             | _ => SeekErr
+             end
+    end
+  end.
+
+Lemma seek_p_clean : forall f tag req bs, seek_p f tag req bs <> SeekFuel -> skip_to_no_check f tag req bs = seek_p f tag req bs.
+Proof.
+  induction f as [|f IH]; intros tag req bs H; [reflexivity|]. cbn [seek_p skip_to_no_check] in *.
+  destruct (read_head2 bs) as [[[[ty tg] r] two]|]; [|reflexivity].
+  destruct ((ty =? tSE) || (tag <? tg))%N; [reflexivity|]. destruct (tg =? tag)%N; [reflexivity|].
+  destruct (skip_field_p f 0 ty r) as [s0 r1] eqn:E.
+  assert (s0 <> SFuel) by (intros ->; congruence).
+  rewrite (proj1 (skip_p_clean f) _ _ _ _ _ E H0). destruct s0; try congruence. apply IH. exact H.
+Qed.
+
+(* what tr_SkipToNoCheck returns for an outcome of the search: (have, type, error) and what is left *)
+Definition seek_sim (c : ctl unit (go_reader * bool * Z * bool)) (ref : list N) (x : seek) : Prop :=
+  match x with
+  | Found ty rest => exists p', c = Return (mk ref p' 0, true, Z.of_N ty, false) /\ go_drop ref p' = rest /\ 0 <= p' <= go_len ref /\ (ty < 16)%N
+  | NotFound rest => exists p' ty, c = Return (mk ref p' 0, false, ty, false) /\ go_drop ref p' = rest /\ 0 <= p' <= go_len ref + 4294967296
+  | SeekErr => exists p' ty, c = Return (mk ref p' 0, false, ty, true) /\ 0 <= p' <= go_len ref + 4294967296
+  | SeekFuel => True
+  end.
+
+Theorem tr_SkipToNoCheck_equiv : forall f F (tag : N) req ref p, (f + 3 <= F)%nat -> ok (mk ref p 0) ->
+  seek_p f tag req (go_drop ref p) <> SeekFuel ->
+  seek_sim (tr_SkipToNoCheck F (Z.of_N tag) req (mk ref p 0)) ref (seek_p f tag req (go_drop ref p)).
+Proof.
+  induction f as [|f IH]; intros F tag req ref p HF Hok H; [cbn in H; congruence|].
+  pose proof Hok as (Hp & Hl & Hb). cbn [rd_pos rd_ref] in *.
+  destruct F as [|F]; [lia|]. pose proof (tr_SkipToNoCheck_step F tag req ref p 0 Hok) as ST.
+  cbn [seek_p] in *.
+  destruct (read_head2 (go_drop ref p)) as [[[[ty tg] r] two]|].
+  - cbv zeta in ST. destruct ST as (Er & Lr & Hty & Htg & ST).
+    set (q := p + (if two then 2 else 1)) in *. assert (Hq : p <= q) by (unfold q; destruct two; lia).
+    destruct ((ty =? tSE) || (tag <? tg))%N.
+    + destruct req.
+      * rewrite ST. cbn [seek_sim]. exists q, (Z.of_N ty). split; [reflexivity|lia].
+      * destruct ST as (p' & -> & U & L). cbn [seek_sim]. exists p', (Z.of_N ty). repeat split; try assumption; lia.
+    + destruct (tg =? tag)%N.
+      * rewrite ST. cbn [seek_sim]. exists q. repeat split; try assumption; lia.
+      * rewrite ST. clear ST.
+        destruct (skip_field_p f 0 ty r) as [s0 r1] eqn:E0.
+        assert (Hs0 : s0 <> SFuel) by (intros ->; congruence).
+        destruct (proj1 (skip_sim f) F ref q 0%N ty s0 r1 ltac:(lia)) as (p1 & E1 & Er1 & Hp1); try assumption.
+        { split; [repeat split; cbn [rd_pos rd_ref]; try assumption; lia|cbn [rd_pos rd_ref]; lia]. }
+        { assert (maxd = 512%N) by reflexivity. lia. }
+        { rewrite Er. exact E0. }
+        change (Z.of_N 0) with 0 in E1. rewrite E1. cbn [go_call].
+        destruct s0; try congruence; cbn [err_of].
+        -- specialize (IH F tag req ref p1 ltac:(lia)). rewrite Er1 in IH. apply IH; [|exact H].
+           repeat split; cbn [rd_pos rd_ref]; try assumption; lia.
+        -- cbn [seek_sim]. exists p1, (Z.of_N ty). split; [reflexivity|lia].
+  - destruct ST as (p' & ty & -> & E & L1 & L2). destruct req; cbn [seek_sim].
+    + exists p', ty. split; [reflexivity|lia].
+    + exists p', ty. repeat split; try assumption; lia.
+Qed.
